@@ -7,6 +7,7 @@ CONSTANTS
   NoShadow = FALSE
   NoPreCheck = FALSE
   XParU = {"AB", "ABS"}
+  ModEnds = "off"
   ShallowSub = FALSE
   IgnoreNs = FALSE
   ModSharedPath = FALSE
